@@ -14,7 +14,7 @@ RULE = ('cells = look {-55,-30,-10,-1,0,1,10,30,55 deg} x zero distance {10,25,1
         '{none,cross 15 mph,tail 20,head 20} for the baseline load (quick: two stored zeros, wind on a sub-grid), plus one further deviation over '
         'load {G1 .365/2600, pellet G1 .03/900 fps} and sight height {3.2,0,-1 in}; domain = the same shot fired along the sight line reaches '
         'x = d cos(look) without a range error; non-trivial = in-domain cell with look != 0 or wind or a non-zero stored zero')
-ASSUMPTIONS = ['"one integration step of travel" = the configured maximum step (0.5 ft) (lenient reading)',
+ASSUMPTIONS = ['fail cells (iteration cap 1-2 from a cold start, targets far beyond reach) check the error / stored-zero clauses', '"one integration step of travel" = the configured maximum step (0.5 ft) (lenient reading)',
                'out-of-domain cells may raise any error or return an angle that meets the bound',
                'grid values only']
 
@@ -30,9 +30,10 @@ MAX_STEP = 0.5
 def zero(cell):
     import py_ballisticcalc as pb
     U = pb.Unit
-    look, d_yd, stored, wind, load, sh = cell
+    look, d_yd, stored, wind, load, sh = cell[:6]
+    cfg = cell[6] if len(cell) > 6 else None
     spec = dict(LOADS[load], look=look, zero=stored, wind=wind, sh=sh)
-    calc = make_calc()
+    calc = make_calc(cfg)
     x = d_yd * 3.0 * math.cos(math.radians(look))
     # domain predicate: launched along the sight line, does it reach x within the limits ?
     flat = make_shot(dict(spec, zero=0.0))
@@ -50,9 +51,26 @@ def zero(cell):
     except Exception as e:  # noqa
         if bits(shot.weapon.zero_elevation.raw_value) != before:
             out.append({'msg': f'{label}: failed zeroing ({type(e).__name__}) changed the stored zero', 'key': None})
-        if in_domain:
-            out.append({'msg': f'{label}: target is within reach along the sight line but zeroing failed with {type(e).__name__}: {str(e)[:80]}', 'key': None})
-        return {'v': out, 'n': 2, 'nt': cell if in_domain else None, 'obs': ['error', type(e).__name__, in_domain], 'vac': not in_domain and not out}
+        if in_domain and not cfg:
+            key = None
+            if isinstance(e, pb.ZeroFindingError) and e.zero_finding_error <= 4 * ACC:
+                # known finding: linear convergence of the fixed-point iteration where the trajectory falls steeply at the aim point
+                try:
+                    probe = make_shot(spec)
+                    probe.weapon.zero_elevation = U.Radian((e.last_barrel_elevation >> U.Radian) - math.radians(look))
+                    pr = [r for r in calc.fire(probe, U.Foot(x), U.Foot(x)).trajectory if r.flag & 8][-1]
+                    if abs(math.tan((pr.angle >> U.Radian) - math.radians(look))) > 0.3:
+                        key = 'zero-near-max-range'
+                except pb.RangeError:
+                    pass
+            if isinstance(e, pb.RangeError):
+                # known finding: the iteration starts from the stored zero; if THAT trajectory cannot reach the distance the error propagates
+                try:
+                    calc.fire(make_shot(spec), U.Foot(x), U.Foot(x))
+                except pb.RangeError:
+                    key = 'zero-bad-stored-start'
+            out.append({'msg': f'{label}: target is within reach along the sight line but zeroing failed with {type(e).__name__}: {str(e)[:80]}', 'key': key})
+        return {'v': out, 'n': 2, 'nt': cell if (in_domain or cfg) else None, 'obs': ['error', type(e).__name__, in_domain], 'vac': not in_domain and not out and not cfg}
     if bits(shot.weapon.zero_elevation.raw_value) != bits(z.raw_value):
         out.append({'msg': f'{label}: returned elevation differs from the stored zero', 'key': None})
     # fire back with the returned zero and no hold-over
@@ -79,7 +97,7 @@ def zero(cell):
             'extra': {'max_miss_over_bound': ratio} if ratio is not None and not out else {}}
 
 
-PARTS = {'zero': zero}
+PARTS = {'zero': zero, 'fail': zero}
 
 
 def plan(tier):
@@ -104,4 +122,13 @@ def plan(tier):
                 cells.append([look, d if load != 'pellet' else d / 10, st, 'none', load, 2.0])
             for sh in (3.2, 0.0, -1.0):
                 cells.append([look, d, st, 'none', 'base', sh])
-    return [('zero', cells)]
+    # attempts that must fail (iteration cap too low from a cold start, or target far out of reach): an error, never an angle that misses,
+    # and the stored zero untouched
+    fails = []
+    for look, st in itertools.product([-30.0, 0.0, 10.0, 55.0], STORED):
+        for d in (100.0, 600.0):
+            fails.append([look, d, st, 'none', 'base', 2.0, {'cMaxIterations': 1}])
+            fails.append([look, d, st, 'cross15', 'base', 2.0, {'cMaxIterations': 2, 'cZeroFindingAccuracy': 1e-9}])
+        fails.append([look, 9000.0, st, 'none', 'base', 2.0])
+        fails.append([look, 400.0, st, 'none', 'pellet', 2.0])
+    return [('zero', cells), ('fail', fails)]
